@@ -230,6 +230,38 @@ def scale_run(arg):
         r.close()
 
 
+def window_stage(seconds):
+    """statistics records: a peer that sends one watchdog request per second for longer than the statistics windows are
+    wide (1000 s), with the node's own statistics thread sampling as it always does; -> sizes of every window found"""
+    from ..world import World
+    from ..load import load
+    from .. import msgs
+    load()
+    w = World(peers=[peer_cfg("p1")], apps=[app_cfg("a1", peers=["p1"])])
+    try:
+        w.start()
+        vc = w.accept()
+        w.feed(vc, [msgs.cer("p1.r1")])
+        for t in range(seconds):
+            w.feed(vc, [msgs.dwr("p1.r1", hbh=t + 2, e2e=t + 2)])
+            w.tick(1)
+        out = []
+        for name, po in sorted(w.peers.items()):
+            st = po.statistics
+            for key, v in sorted(vars(st).items()):
+                items = list(v.items()) if isinstance(v, dict) else [("", v)]
+                for sub, x in items:
+                    if type(x).__name__ == "SecondSlotCounter":
+                        out.append(("%s.%s%s" % (name, key, "[%s]" % sub if sub else ""), len(x._slots), x._maxage + 1))
+                    elif isinstance(x, collections.deque):
+                        out.append(("%s.%s%s" % (name, key, "[%s]" % sub if sub else ""), len(x), x.maxlen if x.maxlen is not None else -1))
+        out.append(("node.statistics_history", len(w.node.statistics_history), w.node.statistics_history.maxlen or -1))
+        answered = sum(1 for m in vc.tx if m["cmd"] == "DW" and not m["req"])
+        return out, answered, [(n, e) for n, e, _ in w.s.exits]
+    finally:
+        w.close()
+
+
 def run(tier, seed):
     mc, sim = plans(tier)
     ck = nc.run_property("C19", tier, seed, "Inv19", PROFILE, mc, sim, 1200 if tier == "thorough" else 200, ASSUME, enum_plan=enum_plans(tier))
@@ -266,6 +298,18 @@ def run(tier, seed):
                 kind, o["n"], v["sig"], o["n"], diff, tr[0]["threads"], o["threads"], tr[0]["open"], o["open"]), {"scale": kind, "n": o["n"]})
         if any(o["exits"] for o in tr):
             ck.note("scaling %s: thread exits %r" % (kind, [o["exits"] for o in tr if o["exits"]][:1]))
+    # ---- E. statistics windows: bounded by their width however long the traffic lasts --------------------
+    secs = 2600 if th else 1300
+    sizes, answered, exits = window_stage(secs)
+    for name, n, bound in sizes:
+        if bound < 0 or n > bound:
+            ck.violation("statistics_window_exceeds_its_width:%s" % name.split("[")[0].split(".")[-1],
+                         "after %d s with one watchdog request per second %s holds %d records (window width %s)" % (secs, name, n, bound if bound >= 0 else "unbounded"),
+                         {"window_stage": secs})
+    if answered != secs or exits or not any(n >= 1000 for _, n, _ in sizes):
+        raise nc.tlc.TlcError("window stage did not run as intended: %d of %d watchdog requests answered, exits %r, sizes %r" % (answered, secs, exits, sizes))
+    ck.cov["statistics_windows_observed"] = len(sizes)
+    ck.cov["statistics_window_seconds"] = secs
     ck.cov["scaling_runs"] = len(obs)
     ck.cov["scaling_kinds"] = len(kinds)
     ck.cov["scaling_repetitions"] = ns
